@@ -18,7 +18,7 @@ from ..harness import (Explorer, make_belief_base, make_epistemic_state, make_qu
                        KEYS_D, returned_bool, P_value, PVAR, layer_fam, LEN_P, LAST, K, reccall_summary, rc2_state,
                        RC2_SUMMARIES, RC2_HOOKS, wcnf_view, norm_witem, eval_pred, pred_atoms, view, CONDZ3_CLASS)
 from . import wrappers
-from .sysz import not_falsified, start_strict, start_total, INF_ITEM, vacuity_guard, inference_entry, _index_arg
+from .sysz import not_falsified, start_strict, start_total, INF_ITEM, vacuity_guard, inference_entry, _index_arg, ext_terminal_answers
 
 HEAD = ("sym", "H")
 HEAD_F = ("sym", "HF")
@@ -565,7 +565,8 @@ def w_entry(rep, ex: Explorer, be: Backend, strict=True, extended=False, prefix=
             ok2, w2 = F.guard_implies(want, got)
             rep.check(ok2, "EXT.vacuity", site, "vacuous True is complete", "a query whose falsification has no feasible model is answered True",
                       extracted=F.show_guard(got) + (f" misses {w2}" if w2 else ""), required="⊇ " + F.show_guard(want), function=site)
-        else:
+        ext_terminal_answers(rep, site, paths, mcs_items=lambda ev: side_items(be, ev))
+        if not explicit:
             rep.ok("EXT.vacuity", site, "vacuity through emptiness", "no explicit vacuity test: infeasible sides show as empty families of correction sets, decided by the subset test (W.subset-test rows with empty families) and the enumeration summary")
     return site, paths
 
